@@ -23,7 +23,12 @@ class IndentationFeatures(object):
     @property
     def is_valid(self):
         fp = self.dataset.fit_properties
-        return bool(fp) and "x_axis" in fp and "y_axis" in fp
+        if not (bool(fp) and "x_axis" in fp and "y_axis" in fp):
+            return False
+        # The features are defined for an approach part that runs from
+        # large distances towards lower distances (see `datax_apr`).
+        x = self.dataset[fp["x_axis"]][self.dataset["segment"] == 0]
+        return bool(x.size > 1 and x[0] > x[-1])
 
     @property
     def has_contact_point(self):
